@@ -152,8 +152,7 @@ Definition prop_ro (input obs : val) : val :=
       let klass := if String.eqb clause "carried-key-not-found" && ident && q_storeid o && negb idxids
                    then "index-without-identity-entries"
                    (* GetSize answers len(digest) for every identity key, also under StoreIdentityCIDs *)
-                   else if (String.eqb clause "absent-key-getsize-not-notfound" ||
-                            String.eqb clause "getsize-of-no-carrying-section") && ident && q_storeid o && digest_size
+                   else if String.eqb clause "absent-key-getsize-not-notfound" && ident && q_storeid o && digest_size
                    then "identity-getsize-short-circuit" else "" in
       VL [VT "FAIL"; VT clause; VT klass]
   end.
